@@ -97,6 +97,7 @@ def run(ctx):
                 continue
             break
     n_files = across_files(ctx, rng, q)
+    n_files += text_level_mask_images(ctx, rng, q)
     ctx.evaluations = len(cases) + len(longs) + n_files
     ctx.distinct_nontrivial = pairs
     ctx.search_stats = {"pairs_compared": pairs, "cases": len(cases), "long_histories": [len(ipgen.ops_of(c)) for c in longs]}
@@ -151,3 +152,55 @@ def across_files(ctx, rng, q):
                 ipaddress.IPv4Address(x), ipaddress.IPv4Address(y), lcp(x, y), ipaddress.IPv4Address(fx), ipaddress.IPv4Address(fy), lcp(fx, fy)),
                 {"opts": opts, "entry_point": mode, "files": {k: [str(ipaddress.IPv4Address(a)) for a in v] for k, v in files.items()}}, [fx, fy], label="impl-files")
     return n
+
+
+def text_level_mask_images(ctx, rng, q):
+    """the mapping as the text pipeline applies it (anonymize_ip_addr), on the addresses a random search never meets: those whose IMAGE is
+    netmask- or wildcard-shaped (about 64 per salt and option set), each with neighbours sharing k leading bits for several k.  The pre-images are
+    computed with the independent reference walk (ipref.image with undo); the images are read from the output text."""
+    import ipaddress
+    from . import ipref, textgen
+    MASKS = ["255.255.255.0", "0.0.0.255", "255.255.0.0", "63.255.255.255", "192.0.0.0", "255.255.255.252", "0.0.255.255", "255.255.255.253", "128.0.0.0", "0.0.0.3"]
+    cases, metas = [], []
+    for _ in range(6 if q else 60):
+        salt, b4 = rng.choice(ipgen.SALTS), rng.choice([0, 8, 8, 2])
+        pfx = rng.choice(["D", "D", ipgen.net("20.0.0.0", 8)])
+        H = ipref.salter_of("md5:" + salt)
+        seeds = ipref.seeds_of(pfx, "-", ipref.DEFAULTS)
+        addrs = []
+        for mval in rng.sample(MASKS, 4):
+            x = ipref.image(H, 32, b4, seeds, int(ipaddress.IPv4Address(mval)), undo=True)
+            for y in [x] + [x ^ (1 << k) for k in rng.sample(range(32), 5)]:
+                if not ipref.is_mask_ref(y) and y not in addrs:
+                    addrs.append(y)
+        if len(addrs) < 2:
+            continue
+        lines = ["host %s\n" % ipaddress.IPv4Address(a) for a in addrs]
+        cases.append(textgen.pipe(lines, flags="a", salt=salt, pfx=pfx, b4=b4))
+        metas.append(addrs)
+    if not cases:
+        return 0
+    m, i = ctx.correspond(cases, project=lambda c, o: textgen.norm(o), label="text-level-mask-images")
+    for c, out, addrs in zip(cases, i, metas):
+        if out.startswith("RAISED"):
+            ctx.fail("processing raised", c[:11], out, label="impl-text")
+            continue
+        try:
+            ys = [int(ipaddress.IPv4Address(l.split()[1])) for l in textgen.outlines(out)[:len(addrs)]]
+        except Exception:
+            ctx.fail("an address line did not come back as an address line", c[:11] + c[11:14], out[:300], label="impl-text")
+            continue
+        bad = None
+        for a in range(len(addrs)):
+            for b in range(a + 1, len(addrs)):
+                if ipgen.lcp(addrs[a], addrs[b], 32) != ipgen.lcp(ys[a], ys[b], 32):
+                    bad = (a, b)
+                    break
+            if bad:
+                break
+        if bad:
+            a, b = bad
+            ctx.fail("text pipeline: %s and %s share %d leading bits but their replacements %s and %s share %d (one of the images is netmask-shaped)" % (
+                ipaddress.IPv4Address(addrs[a]), ipaddress.IPv4Address(addrs[b]), ipgen.lcp(addrs[a], addrs[b], 32),
+                ipaddress.IPv4Address(ys[a]), ipaddress.IPv4Address(ys[b]), ipgen.lcp(ys[a], ys[b], 32)), c[:11] + c[11:], out[:400], label="impl-text")
+    return sum(len(a) for a in metas)
